@@ -46,6 +46,10 @@ type c13Plan struct {
 	// message-handler tasks (each with its own decoded copies of the shares) while they also poll it
 	Conc     int    `json:"conc,omitempty"`
 	ConcSeed uint64 `json:"conc_seed,omitempty"`
+	// Redeal: 1+index of a dealer that loses its context after RedealAt deliveries (restart, cache eviction)
+	// and deals again when the group-init message is delivered to it once more
+	Redeal   int `json:"redeal,omitempty"`
+	RedealAt int `json:"redeal_at,omitempty"`
 }
 
 type c13 struct{}
@@ -68,7 +72,7 @@ func (c13) Describe() runner.Description {
 		Assumptions: []string{"the reference signature H(m)^s is computed with the repository's Sign on the independently summed secret (BLS uniqueness makes it the only signature valid under the group key; verification soundness itself is property C14, not applicable here)"},
 		Real:        []string{"consensus/logical/group_create.groupNodeInfo (DKG member)", "consensus/groupsig (ShareSeckey, AggregateSeckeys/Pubkeys, Sign, VerifySig, RecoverGroupSignature, Lagrange recovery)", "consensus/model.GroupSignGenerator", "consensus/base.Rand (seeded via hook)"},
 		Stub:        []string{"transport between members (simulated: reorder, duplicate, drop)", "the rest of the node (not booted)"},
-		FaultKinds:  []string{"dkg_reorder", "dkg_duplicate", "share_drop", "share_duplicate", "share_late_after_recovery", "internal_subset_seed", "map_order_seed", "concurrent_handlers", "key_reloaded_from_storage_form"},
+		FaultKinds:  []string{"dkg_reorder", "dkg_duplicate", "share_drop", "share_duplicate", "share_late_after_recovery", "internal_subset_seed", "map_order_seed", "concurrent_handlers", "key_reloaded_from_storage_form", "dkg_dealer_context_lost_redeal"},
 	}
 }
 
@@ -83,6 +87,9 @@ func (c13) Gen(seed uint64, tier string) json.RawMessage {
 		if r.Chance(0.08) {
 			p.Deliver = append(p.Deliver, x)
 		}
+	}
+	if r.Chance(0.15) {
+		p.Redeal, p.RedealAt = 1+r.Intn(p.N), r.Range(1, len(p.Deliver)-1)
 	}
 	k := int(math.Ceil(float64(p.N*51) / 100))
 	nc := r.Range(2, 5)
@@ -182,8 +189,9 @@ func (c13) Exec(raw json.RawMessage, st *simrt.Stats, log *simrt.Log) *simrt.Vio
 		}
 	}
 	done := make([]bool, n)
+	var redeal map[string]model.SharePiece
 	seen := map[int]bool{}
-	for _, x := range p.Deliver {
+	for di, x := range p.Deliver {
 		d, rcv := (x/n)%n, x%n
 		if seen[x] {
 			st.Fault("dkg_duplicate")
@@ -191,6 +199,15 @@ func (c13) Exec(raw json.RawMessage, st *simrt.Stats, log *simrt.Log) *simrt.Vio
 		seen[x] = true
 		st.Fault("dkg_reorder")
 		piece := deals[d][ids[rcv].GetHexString()]
+		if p.Redeal == d+1 && di >= p.RedealAt {
+			if redeal == nil {
+				// the same miner, a new context: what it hands out now must fit what it handed out before
+				sec := sha256.Sum256([]byte(fmt.Sprintf("secret-%d-%d", p.Seed, d)))
+				redeal = group_create.SimNewDKGMember(ids[d], sec[:], n).Deal(ids)
+				st.Fault("dkg_dealer_context_lost_redeal")
+			}
+			piece = redeal[ids[rcv].GetHexString()]
+		}
 		if members[rcv].Receive(ids[d], piece) == 1 {
 			done[rcv] = true
 		}
